@@ -23,7 +23,17 @@ for sd in seeds:
     meta = json.load(open(f"{d}/meta.json"))
     prop = meta["property"]
     patch = f"{d}/patch.diff"
-    base = "HEAD" if sh(f"git -C /repo apply --check {patch}").returncode == 0 else "d7afc3f"
+    base = "HEAD"
+    if sh(f"git -C /repo apply --check {patch}").returncode != 0:
+        base = "d7afc3f"
+        for cand in [meta.get("base"), "0531582", "03e99e9"]:
+            if not cand: continue
+            t = tempfile.mkdtemp(prefix="seedbase-"); os.rmdir(t)
+            sh(f"git -C /repo worktree add -q --detach {t} {cand}")
+            ok = sh(f"git apply --check {patch}", cwd=t).returncode == 0
+            sh(f"git -C /repo worktree remove --force {t}"); shutil.rmtree(t, ignore_errors=True)
+            if ok:
+                base = cand; break
     wt = tempfile.mkdtemp(prefix="seedeval-"); os.rmdir(wt)
     try:
         sh(f"git -C /repo worktree add -q --detach {wt} {base}")
